@@ -1,4 +1,4 @@
-use nla::asn1::{ASN1, Sequence, ExplicitTag, SequenceOf, ASN1Type, OctetString, Integer, to_der, check_lengths};
+use nla::asn1::{ASN1, Sequence, ExplicitTag, SequenceOf, ASN1Type, OctetString, Integer, to_der, check_der_lengths};
 use model::error::{RdpError, RdpErrorKind, Error, RdpResult};
 use num_bigint::{BigUint};
 use yasna::Tag;
@@ -59,7 +59,7 @@ pub fn read_ts_server_challenge(stream: &[u8]) -> RdpResult<Vec<u8>> {
          )
     ];
 
-    check_lengths(stream)?;
+    check_der_lengths(stream)?;
     yasna::parse_der(stream, |reader| {
         if let Err(Error::ASN1Error(e)) = ts_request.read_asn1(reader) {
             return Err(e)
@@ -124,7 +124,7 @@ pub fn read_ts_validate(request: &[u8]) -> RdpResult<Vec<u8>> {
         "pubKeyAuth" => ExplicitTag::new(Tag::context(3), OctetString::new())
     ];
 
-    check_lengths(request)?;
+    check_der_lengths(request)?;
     yasna::parse_der(request, |reader| {
         if let Err(Error::ASN1Error(e)) = ts_challenge.read_asn1(reader) {
             return Err(e)
